@@ -314,10 +314,10 @@ theorem C11_mutex_with_blocks (o : Bool) (s s' : St) (e : Ev) (h : ReachE o s) (
     ((∃ n w, e = .gotRequest n w ∧ s.lp = .select) ∨ (e = .loopDeactivate ∧ s.lp = .exiting) ∨
      (e = .stopCleaned ∧ s.lp = .off)) := by
   have hall := reachE_allGood h
-  obtain ⟨st, sEnter, sp, kEnter, kDecided, kWait, kClean, lp, pp, abortClosed, nbClosed, wg, writing, res, opens, crashed,
+  obtain ⟨st, sEnter, sp, kEnter, kDecided, kWait, kReady, kClean, lp, pp, abortClosed, nbClosed, wg, writing, res, opens, crashed,
     fuel, flag, rEnter, rSend, rWait, runOver, stopsDone, asm⟩ := s
-  obtain ⟨⟨h1, h2, h3, h4, h5, h6, h7, h8, h9, h10, h11, h12, h13, h14, h15, h16, h17, h18⟩, ⟨e1, e2, e3, e4⟩, hw, hc⟩ := hall
-  dsimp only [stoppers, GoodW] at h1 h2 h3 h4 h5 h6 h7 h8 h9 h10 h11 h12 h13 h14 h15 h16 h17 h18 e1 e2 e3 e4 hw hc
+  obtain ⟨⟨h1, h2, h3, h4, h5, h6, h7, h8, h9, h10, h11, h12, h13, h14, h15, h16, h17, h18, h19⟩, ⟨e1, e2, e3, e4, e5⟩, hw, hc⟩ := hall
+  dsimp only [stoppers, GoodW] at h1 h2 h3 h4 h5 h6 h7 h8 h9 h10 h11 h12 h13 h14 h15 h16 h17 h18 h19 e1 e2 e3 e4 e5 hw hc
   cases e <;> lc_open hs
   all_goals ((try simp only [deactivate] at hch ⊢) <;> (try split at hch) <;>
     simp_all [LPc.alive, LPc.working, PPc.alive, SPc.inStarting, SPc.owner, SrcState.running] <;> (try omega) <;> (try grind))
@@ -346,12 +346,12 @@ theorem C11_no_wedge (o : Bool) (s : St) (h : ReachW o s) (hc : s.crashed = fals
     (s.rSend > 0 → s.lp = .off → s.sp.owner ∨ (step s .rpcSourceGone).isSome = true) ∧
     (callers s > 0 → ∃ e s', e.isEnv = false ∧ step s e = some s') := by
   obtain ⟨hg, hw⟩ := reachW_good h
-  obtain ⟨st, sEnter, sp, kEnter, kDecided, kWait, kClean, lp, pp, abortClosed, nbClosed, wg, writing, res, opens, crashed,
+  obtain ⟨st, sEnter, sp, kEnter, kDecided, kWait, kReady, kClean, lp, pp, abortClosed, nbClosed, wg, writing, res, opens, crashed,
     fuel, flag, rEnter, rSend, rWait, runOver, stopsDone, asm⟩ := s
-  obtain ⟨h1, h2, h3, h4, h5, h6, h7, h8, h9, h10, h11, h12, h13, h14, h15, h16, h17, h18⟩ := hg
+  obtain ⟨h1, h2, h3, h4, h5, h6, h7, h8, h9, h10, h11, h12, h13, h14, h15, h16, h17, h18, h19⟩ := hg
   dsimp only [GoodW, callers] at *
   subst hc
-  have ha : ∀ n, lp = .req (n + 1) → (step ⟨st, sEnter, sp, kEnter, kDecided, kWait, kClean, lp, pp, abortClosed, nbClosed, wg,
+  have ha : ∀ n, lp = .req (n + 1) → (step ⟨st, sEnter, sp, kEnter, kDecided, kWait, kReady, kClean, lp, pp, abortClosed, nbClosed, wg,
       writing, res, opens, false, fuel, flag, rEnter, rSend, rWait, runOver, stopsDone, asm⟩ .reply).isSome = true := by
     intro n hn
     subst hn
@@ -365,7 +365,7 @@ theorem C11_no_wedge (o : Bool) (s : St) (h : ReachW o s) (hc : s.crashed = fals
       | zero => simp [pendingReplies] at hw; omega
       | succ m => exact ⟨m, rfl⟩
     | _ => simp [pendingReplies] at hw; omega
-  have hcc : rSend > 0 → lp = .off → sp.owner ∨ (step ⟨st, sEnter, sp, kEnter, kDecided, kWait, kClean, lp, pp, abortClosed,
+  have hcc : rSend > 0 → lp = .off → sp.owner ∨ (step ⟨st, sEnter, sp, kEnter, kDecided, kWait, kReady, kClean, lp, pp, abortClosed,
       nbClosed, wg, writing, res, opens, false, fuel, flag, rEnter, rSend, rWait, runOver, stopsDone, asm⟩
       .rpcSourceGone).isSome = true := by
     intro hr hl
